@@ -1,4 +1,5 @@
-"""scipy's normal CDF on a dyadic grid (cross-check of the TRUSTED interval extension PhiI_series)."""
+"""scipy's normal CDF on a dyadic grid (compared with the interval extension PhiI_series, proved to enclose
+Phi_def x = 1/2 + RInt npdf 0 x -- rocq/Proofs/PhiP.v, T01f_PhiI_series_correct)."""
 import json, sys, math
 from scipy.stats import norm
 xs = json.load(sys.stdin)['xs']
